@@ -76,6 +76,9 @@ SIMPLER_CLASS = {
     "MigratingVertex": "Vertex",
     "JournalVertex": "Vertex",
     "PortVertex": "Vertex",
+    "LatePortVertex": "Vertex",
+    "SpanEdge": "DirectedEdge",
+    "ArcEdge": "DirectedEdge",
     "SanctuaryUniverse": "Universe",
     "LabelledEdge": "DirectedEdge",
     "SubUniverse": "Universe",
